@@ -603,9 +603,9 @@ func yamlBytes(maxLen int) hlib.Suite {
 
 func suites(tier string) []hlib.Suite {
 	if tier == "quick" {
-		return []hlib.Suite{rateStrings(5), stagesStrings(5), cliSuite(false), yamlSuite(false), yamlBytes(2)}
+		return []hlib.Suite{rateStrings(6), stagesStrings(6), cliSuite(false), yamlSuite(true), yamlBytes(2)}
 	}
-	return []hlib.Suite{rateStrings(6), stagesStrings(6), cliSuite(true), yamlSuite(true), yamlBytes(3)}
+	return []hlib.Suite{rateStrings(7), stagesStrings(7), cliSuite(true), yamlSuite(true), yamlBytes(3)}
 }
 
 func main() { hlib.EnumMain("C14", suites) }
